@@ -4,6 +4,7 @@ import (
 	"context"
 	"encoding/json"
 	"fmt"
+	"math"
 	"strings"
 
 	"github.com/theory/sqljson/path/ast"
@@ -121,6 +122,18 @@ func compareNumbers[T int | int64 | float64](left, right T) int {
 	return 0
 }
 
+// jsonNumberFloat returns num as a float64. A number too large for a float64
+// is not an error here: it converts to ±Inf, which still orders correctly
+// against every other number.
+func jsonNumberFloat(num json.Number) (float64, error) {
+	float, err := num.Float64()
+	if err != nil && math.IsInf(float, 0) {
+		return float, nil
+	}
+	//nolint:wrapcheck
+	return float, err
+}
+
 // compareBool compares two numeric values and returns 0, 1, or -1. The left
 // and right params must be int64, float64, or json.Number values.
 func compareNumeric(left, right any) int {
@@ -135,7 +148,7 @@ func compareNumeric(left, right any) int {
 			if rightInt, err := right.Int64(); err == nil {
 				return compareNumbers(left, rightInt)
 			}
-			rightFloat, err := right.Float64()
+			rightFloat, err := jsonNumberFloat(right)
 			if err == nil {
 				return compareNumbers(float64(left), rightFloat)
 			}
@@ -149,7 +162,7 @@ func compareNumeric(left, right any) int {
 		case int64:
 			return compareNumbers(left, float64(right))
 		case json.Number:
-			rightFloat, err := right.Float64()
+			rightFloat, err := jsonNumberFloat(right)
 			if err == nil {
 				return compareNumbers(left, rightFloat)
 			}
@@ -160,7 +173,7 @@ func compareNumeric(left, right any) int {
 		if left, err := left.Int64(); err == nil {
 			return compareNumeric(left, right)
 		}
-		leftFloat, err := left.Float64()
+		leftFloat, err := jsonNumberFloat(left)
 		if err == nil {
 			return compareNumeric(leftFloat, right)
 		}
